@@ -89,7 +89,11 @@ impl Row {
         if let (Opd::Int(i32::MIN), "%", Opd::Int(-1)) = (self.a, self.op, self.b) {
             return Want::ZeroOrFails;
         }
-        let recv = self.a.v().expect("receiver is primitive");
+        // an array or an object without such a member understands none of the operators
+        let recv = match self.a.v() {
+            Some(v) => v,
+            None => return Want::Fails,
+        };
         // array/object arguments: only == / != are defined (different kinds are unequal)
         let arg = match self.b.v() {
             Some(v) => v,
@@ -147,7 +151,7 @@ pub fn table() -> Vec<Row> {
         rows.push(Row { a: Opd::Null, op, b: Opd::Null, feeny: Some(feeny_name(op)) });
     }
     // every cross-kind pair (and the same-kind pairs with operators of the other kind)
-    let recvs = [Opd::Int(5), Opd::Int(0), Opd::Bool(true), Opd::Bool(false), Opd::Null];
+    let recvs = [Opd::Int(5), Opd::Int(0), Opd::Bool(true), Opd::Bool(false), Opd::Null, Opd::Array, Opd::Object];
     let args = [Opd::Int(5), Opd::Int(0), Opd::Bool(true), Opd::Bool(false), Opd::Null, Opd::Array, Opd::Object];
     for a in recvs.iter() {
         for b in args.iter() {
@@ -370,7 +374,7 @@ impl Property for C09 {
         "C09"
     }
     fn rule(&self) -> String {
-        "cases: (exhaustive) the 16-value boundary set squared x 11 integer operators, all boolean tables, null ==/!=, every receiver {int,bool,null} x argument {int,bool,null,array,object} x 13 operators; every receiver x 13 operators x both spellings called explicitly with 0, 2 and 3 arguments (must fail without output); (random) 32-bit operand pairs biased to overflow and sign edges. Each row is `print(\"~\\n\", a op b)` executed in-process in BOTH engine profiles (dev = overflow checks on, release) and, for the tables and a sample of the random rows, through the real debug AND release binaries (non-failing rows batched 100 per program, failing rows one per process). oracle: own specification over i64 (wrap modulo 2^32, truncating division, remainder with the dividend's sign, zero divisor and MIN / -1 fail, ==/!= total on primitives, strict & and |, everything else fails); MIN % -1 may print 0 or fail but must do the same in both builds. non-trivial: exact result outside i32, or a negative operand or zero divisor of / or %, or a cross-kind pair; distinct by (op, a, b) (in-process and CLI observations are counted separately)".into()
+        "cases: (exhaustive) the 16-value boundary set squared x 11 integer operators, all boolean tables, null ==/!=, every receiver {int,bool,null,array,object without members} x argument {int,bool,null,array,object} x 13 operators; every receiver x 13 operators x both spellings called explicitly with 0, 2 and 3 arguments (must fail without output); (random) 32-bit operand pairs biased to overflow and sign edges. Each row is `print(\"~\\n\", a op b)` executed in-process in BOTH engine profiles (dev = overflow checks on, release) and, for the tables and a sample of the random rows, through the real debug AND release binaries (non-failing rows batched 100 per program, failing rows one per process). oracle: own specification over i64 (wrap modulo 2^32, truncating division, remainder with the dividend's sign, zero divisor and MIN / -1 fail, ==/!= total on primitives, strict & and |, everything else fails); MIN % -1 may print 0 or fail but must do the same in both builds. non-trivial: exact result outside i32, or a negative operand or zero divisor of / or %, or a cross-kind pair; distinct by (op, a, b) (in-process and CLI observations are counted separately)".into()
     }
     fn assumptions(&self) -> Vec<String> {
         vec!["MIN % -1 is not listed by the statement: 0 or failure accepted, identical across builds".into()]
